@@ -77,6 +77,7 @@ func init() {
 			{"xlsxWorksheet", "mergeCellsParser", "mergeCellsParser"},
 			{"", "cellInRange", "cellInRange"},
 			{"xlsxMergeCell", "Rect", "mergeCellRect"},
+			{"", "bstrUnmarshal", "bstrUnmarshal"},
 			{"", "isOverlap", "isOverlap"},
 			{"", "mergeCell", "mergeCell"},
 			{"", "flatMergedCells", "flatMergedCells"},
